@@ -190,6 +190,40 @@ fn replay_layers(rec: &Value, viols: &mut Vec<Value>) -> Value {
     }
 }
 
+fn xml_text(s: &str) -> String { s.replace('&', "&amp;").replace('<', "&lt;").replace('>', "&gt;") }
+
+/// Camt053: one debit detail whose every named field carries its own text; one rule on one field.
+fn replay_camt(rec: &Value, viols: &mut Vec<Value>) -> Value {
+    let f = |k: &str| xml_text(rec["fields"][k].as_str().unwrap());
+    let xml = format!("<?xml version=\"1.0\" encoding=\"UTF-8\"?>\n<Document><BkToCstmrStmt><Stmt>\n<Bal><Tp><CdOrPrtry><Cd>CLBD</Cd></CdOrPrtry></Tp><Amt Ccy=\"CHF\">5</Amt><CdtDbtInd>DBIT</CdtDbtInd></Bal>\n<Ntry><Amt Ccy=\"CHF\">5</Amt><CdtDbtInd>DBIT</CdtDbtInd><BookgDt><Dt>2024-01-05</Dt></BookgDt><ValDt><Dt>2024-01-05</Dt></ValDt><BkTxCd><Domn><Cd>PMNT</Cd><Fmly><Cd>ICDT</Cd><SubFmlyCd>AUTT</SubFmlyCd></Fmly></Domn></BkTxCd><NtryDtls><Btch><NbOfTxs>1</NbOfTxs></Btch><TxDtls><Refs><AcctSvcrRef>R1</AcctSvcrRef></Refs><Amt Ccy=\"CHF\">5</Amt><CdtDbtInd>DBIT</CdtDbtInd><RltdPties><Dbtr><Nm>{}</Nm></Dbtr><DbtrAcct><Id><IBAN>{}</IBAN></Id></DbtrAcct><UltmtDbtr><Nm>{}</Nm></UltmtDbtr><Cdtr><Nm>{}</Nm></Cdtr><CdtrAcct><Id><IBAN>{}</IBAN></Id></CdtrAcct><UltmtCdtr><Nm>{}</Nm></UltmtCdtr></RltdPties><RmtInf><Ustrd>{}</Ustrd></RmtInf><AddtlTxInf>{}</AddtlTxInf></TxDtls></NtryDtls><AddtlNtryInf>{}</AddtlNtryInf></Ntry>\n</Stmt></BkToCstmrStmt></Document>\n",
+        f("debtor_name"), f("debtor_account_id"), f("ultimate_debtor_name"), f("creditor_name"), f("creditor_account_id"), f("ultimate_creditor_name"),
+        f("remittance_unstructured_info"), f("additional_transaction_info"), f("additional_entry_info"));
+    let yaml = format!("path: stmt.xml\nencoding: UTF-8\naccount: \"Assets:Src\"\naccount_type: asset\ncommodity: CHF\n{}", rules_yaml(&rec["rules"]));
+    let (x2, y2) = (xml.clone(), yaml.clone());
+    let r = guarded(move || -> Result<Value, String> {
+        let set = config::load_from_yaml(y2.as_bytes()).map_err(|e| format!("config: {}", e))?;
+        let entry = set.select(std::path::Path::new("/data/stmt.xml")).map_err(|e| format!("select: {}", e))?.ok_or("no config selected")?;
+        let txns = import::import(x2.as_bytes(), Format::IsoCamt053, &entry).map_err(|e| format!("import: {}", e))?;
+        let t = txns.last().ok_or("no transaction")?;
+        let d = t.to_double_entry("Assets:Src").map_err(|e| format!("to_double_entry: {}", e))?;
+        let counter = d.posts.iter().find(|p| p.account.as_ref() != "Assets:Src").ok_or("no counter posting")?;
+        Ok(json!({"account": counter.account.as_ref(), "pending": clear_str(&counter.clear_state) == "!"}))
+    });
+    match r {
+        Err(p) => { viols.push(viol("panic", format!("import panicked: {}", p))); Value::Null }
+        Ok(Err(e)) => { viols.push(viol("import_failed", format!("{}\n{}", e, yaml))); Value::Null }
+        Ok(Ok(got)) => {
+            let want = &rec["expect"];
+            let rule = &rec["rules"][0]["or"][0][0];
+            if got["account"] != want["account"] || got["pending"] != want["pending"] {
+                viols.push(viol("camt_field_source", format!("a rule on `{}` with pattern {} gives counter account {} (pending {}), expected {} (pending {}): the field must be read from its own element",
+                    rule["field"].as_str().unwrap(), rule["pat"], got["account"], got["pending"], want["account"], want["pending"])));
+            }
+            got
+        }
+    }
+}
+
 pub fn replay(_idx: usize, rec: &Value) -> Value {
     let mut viols = Vec::new();
     let sc = rec["scenario"].as_str().unwrap();
@@ -197,6 +231,7 @@ pub fn replay(_idx: usize, rec: &Value) -> Value {
         "table" => { check_table(rec, &mut viols); Value::Null }
         "rules" => replay_rules(rec, &mut viols),
         "layers" => replay_layers(rec, &mut viols),
+        "camt" => replay_camt(rec, &mut viols),
         _ => panic!("unknown scenario"),
     };
     let mut classes = vec![sc.to_string()];
